@@ -72,6 +72,8 @@ pub fn exec(input: &Value) -> Value {
     };
     let raw = &raw_value;
     let (irblock, panic) = lift(raw);
+    let casts = casts_to_smaller_view_of_base(raw);
+    let has_cast = !casts.is_empty();
     let table = &raw["register_properties"];
     let spn = raw["stack_pointer_register"]["name"].as_str().unwrap();
     let sps = raw["stack_pointer_register"]["size"].as_u64().unwrap();
@@ -80,7 +82,8 @@ pub fn exec(input: &Value) -> Value {
         "regtable": penc::regtable(table), "ptr": sps, "le": input["le"], "seed": input["seed"],
         "sp": {"n": spn, "s": sps, "t": false}, "physregs": penc::base_registers(table),
         "pblock": penc::blk(&raw["program"]["term"]["subs"][0]["term"]["blocks"][0]),
-        "irblock": irblock, "panic": panic, "casts_to_smaller_view_of_base": casts_to_smaller_view_of_base(raw), "inits": input["inits"], "raw": serde_json::to_string(raw).unwrap(),
+        "irblock": irblock, "panic": panic,
+        "casts_to_smaller_view_of_base": casts, "has_cast_to_smaller_view_of_base": has_cast, "inits": input["inits"], "raw": serde_json::to_string(raw).unwrap(),
     })
 }
 
@@ -103,7 +106,7 @@ fn one_input(seed: u64, idx: u64, archs: &[Arch], ninits: usize) -> (Value, bool
 }
 
 pub fn gen(out: &mut Out, _sub: &str) {
-    let n = out.size(960, 24000);
+    let n = out.size(800, 12000);
     let ninit = out.size(3, 4) as usize;
     let archs = [pblockgen::arch64(), pblockgen::arch32()];
     let mut counts = std::collections::BTreeMap::new();
